@@ -217,6 +217,10 @@ func (publisher *Publisher) Places() map[string]*place {
 			key := alnumOrDashRegexp.
 				ReplaceAllString(strings.ToLower(prettyName), "-")
 
+			if isReservedPageName(key) {
+				key += "-"
+			}
+
 			if _, ok := publisher.placesMap[key]; !ok {
 				country := placeTag.Country()
 				if country == "" {
